@@ -253,7 +253,8 @@ def job_fetcher_text(seed, tier):
             "bound": "%d response bodies (empty, text, upper-case hex, embedded whitespace, trailing/missing byte, binary) x 3 requested ids" % len(bodies)}
 
 
-BOUNDED = [("rt-contracts", fuzz_job(ALL)),
+_GEN = [n for n in ALL if REG.contracts[n].gen is not None]
+BOUNDED = [("rt-contracts-%d" % _k, fuzz_job(_GEN[_k::4])) for _k in range(4)] + [
            ("push-lengths", job_push_lengths), ("counts", job_counts), ("witness-items", job_witness_items),
            ("fields", job_fields), ("txid-sensitivity", job_txid_sensitivity), ("real-transactions", job_real_transactions),
            ("fetcher-bodies", job_fetcher_text)]
